@@ -202,6 +202,17 @@ def run(repo: Repo, rep: Report) -> None:
                         callee = _resolve_local(mod, f, e)
                         if callee is not None and _ncname_producing(mod, callee):
                             return "NCName by construction (%s)" % callee.name
+                        # a method that only puts character references for what the encoding lacks into text that is sanitised already:
+                        # its one parameter is returned, re-bound at most to an encode(.., "xmlcharrefreplace") round trip of itself
+                        if callee is not None and len(e.args) == 1 and not e.keywords and len(callee.args.args) == 2:
+                            par_name = callee.args.args[1].arg
+                            rets_ = [r for r in own_nodes(callee) if isinstance(r, ast.Return)]
+                            rebinds = [a.value for a in own_nodes(callee) if isinstance(a, ast.Assign) and norm(a.targets[0]) == par_name]
+                            if rets_ and all(isinstance(r.value, ast.Name) and r.value.id == par_name for r in rets_) and all(
+                                    any(isinstance(k, ast.Constant) and k.value == "xmlcharrefreplace" for k in ast.walk(v)) and par_name in {x.id for x in ast.walk(v) if isinstance(x, ast.Name)} for v in rebinds):
+                                inner = classify(e.args[0])
+                                if inner is not None:
+                                    return inner + ", then character references for what the encoding lacks"
                     if isinstance(e, ast.Subscript) and isinstance(e.value, ast.Call) and norm(e.value.func).endswith("compute_qname_strict") \
                             and isinstance(e.slice, ast.Constant) and e.slice.value == 0:
                         return "prefix part of a computed qname"
@@ -209,9 +220,22 @@ def run(repo: Repo, rep: Report) -> None:
                         # a private attribute of the serializer: safe if everything the class stores in it is
                         busy.add(e.attr)
                         try:
-                            stores = [a.value for mm in mod.methods(cls).values() for a in own_nodes(mm) if isinstance(a, ast.Assign) and norm(a.targets[0]) == norm(e)]
-                            if stores and all(piece_ok(v) for v in stores):
-                                return "private attribute holding only constants / computed prefixes"
+                            stores = [(a.value, mm) for mm in mod.methods(cls).values() for a in own_nodes(mm) if isinstance(a, ast.Assign) and norm(a.targets[0]) == norm(e)]
+
+                            def store_ok(v: ast.AST, owner: ast.AST) -> bool:
+                                # judged in the method that makes the store: a constant, the prefix part of a computed qname, or a generated label "<letters>%s" % <integer local>
+                                if isinstance(v, ast.Constant) and isinstance(v.value, str):
+                                    return True
+                                if isinstance(v, ast.Subscript) and isinstance(v.value, ast.Call) and norm(v.value.func).endswith("compute_qname_strict") and isinstance(v.slice, ast.Constant) and v.slice.value == 0:
+                                    return True
+                                if isinstance(v, ast.BinOp) and isinstance(v.op, ast.Mod) and isinstance(v.left, ast.Constant) and isinstance(v.left.value, str) \
+                                        and v.left.value.replace("%s", "").replace("%d", "").isalnum() and v.left.value[:1].isalpha() and isinstance(v.right, ast.Name):
+                                    vals = [a.value for a in own_nodes(owner) if isinstance(a, ast.Assign) and norm(a.targets[0]) == v.right.id] + \
+                                           [a.value for a in own_nodes(owner) if isinstance(a, ast.AugAssign) and norm(a.target) == v.right.id]
+                                    return bool(vals) and all(isinstance(x, ast.Constant) and isinstance(x.value, int) for x in vals)
+                                return False
+                            if stores and all(store_ok(v, mm) for v, mm in stores):
+                                return "private attribute holding only constants / computed prefixes / generated labels"
                         finally:
                             busy.discard(e.attr)
                     if isinstance(e, ast.Name) and e.id not in busy:
